@@ -43,7 +43,7 @@ class Prop(PropBase):
         n = 1500 if tier == "quick" else 30000
         for i in range(n):
             nops = rng.choice([2, 3, 5, 8, 13, 21, 34]) if tier == "quick" else rng.choice([3, 8, 21, 60, 150])
-            line = tg.history(rng, nops, sized=rng.random() < 0.7, ops_weights=MODE_WEIGHTS, inputs=(i % 3 == 0))
+            line = tg.history(rng, nops, sized=rng.random() < 0.7, ops_weights=MODE_WEIGHTS, inputs=(i % 3 == 0), localised=(i % 5 == 2))
             nm = sum(line.count(" %s" % o) for o in ("hc", "sc", "me", "md", "nb", "ab", "ti"))
             cs.append(Case(line, tag="history", nontrivial=nm >= 2, cfgs=tg.configs(rng, 2)))
         # cursor-visibility requests around screen draws that repaint many cells at once (a draw is not a mode request)
